@@ -103,6 +103,9 @@ func c11WireBody(seq []int, report func(rule, class, want, got string), applied 
 		}
 		p := w.Dial("P")
 		p.Connect(harness.ConnectOpts{ClientID: "pub", Clean: true, Version: refmqtt.V5})
+		// a retained message on the topic: no shared SUBSCRIBE (first or repeated) may replay it
+		p.Send(&refmqtt.Packet{Type: refmqtt.PUBLISH, Topic: "a", QoS: 0, Retain: true, Payload: []byte("kept")})
+		vsched.Settle()
 		ms := make([]*c11Member, 3)
 		expiry := []uint32{100, 0, 5}
 		connect := func(i int, name string) {
@@ -127,9 +130,27 @@ func c11WireBody(seq []int, report func(rule, class, want, got string), applied 
 				report("subscribe", "refused", "granted", fmt.Sprint(ack))
 				return false
 			}
-			if len(rest) != 0 {
-				report("no-retained-on-shared-subscribe", "packets-after-suback", "nothing", pktStrs(rest))
+			_, _, isShared := refmqtt.SplitShared(f)
+			if isShared && len(rest) != 0 {
+				cl := "packets-after-suback"
+				if _, again := m.subs[f]; again {
+					cl = "packets-after-suback-of-a-repeated-shared-subscribe"
+				}
+				report("no-retained-on-shared-subscribe", cl, "nothing", pktStrs(rest))
 				return false
+			}
+			if !isShared {
+				// the non-shared subscription gets the retained message (QoS 0, nothing to acknowledge)
+				n := 0
+				for _, r := range rest {
+					if r != nil && r.Type == refmqtt.PUBLISH && string(r.Payload) == "kept" {
+						n++
+					}
+				}
+				if n != 1 || len(rest) != 1 {
+					report("retained-on-non-shared-subscribe", fmt.Sprintf("%d-copies", n), "the retained message once", pktStrs(rest))
+					return false
+				}
 			}
 			if ack.Codes[0] != q {
 				report("subscribe", "granted-qos-differs", fmt.Sprint(q), fmt.Sprint(ack.Codes[0]))
